@@ -491,3 +491,6 @@ func sortedPredStrings(ps []SPred) []string {
 	sort.Strings(out)
 	return out
 }
+
+func sUnaryOp(i int) datalog.UnaryOp   { return datalog.UnaryOp{UnaryOpFunc: dUn[i]} }
+func sBinaryOp(i int) datalog.BinaryOp { return datalog.BinaryOp{BinaryOpFunc: dBin[i]} }
